@@ -130,8 +130,18 @@ def workdir():
     return d
 
 
+CLEANUPS = []
+
+
 def cleanup_workdir():
     import shutil
+
+    for fn in CLEANUPS:
+        try:
+            fn()
+        except Exception:  # noqa: BLE001
+            pass
+    del CLEANUPS[:]
 
     shutil.rmtree(os.path.join(WORK, str(os.getpid())), ignore_errors=True)
     try:
